@@ -248,6 +248,9 @@ func absolute(p cat.Program, v int, r result) error {
 	if err := absoluteUnicode(p, v, r); err != nil {
 		return err
 	}
+	if err := absolutePrint(p, v, r); err != nil {
+		return err
+	}
 	if !hasFeat(p, "row-twin") || v > 2 || r.failed {
 		return nil
 	}
